@@ -501,11 +501,38 @@ def task_locale(ctx, col, n):
     envrun.run_specs(ctx, col, 'checks.c13', fixed + hyp_collect(st_case(12), shard_seed(ctx, 78), n), 'c-locale')
 
 
+def equal_values_specs():
+    """A key is overwritten with a value that compares equal to the stored one but is not the same JSON value (1 / true / 1.0,
+    0.0 / -0.0, [1, 2] / [1.0, 2.0], {'on': 1} / {'on': true}, 0 / false / '' / null), through every form of update, alone and
+    next to an unchanged key: what is stored afterwards is the new value."""
+    I = lambda v: {'t': 'int', 'v': v}
+    F = lambda v: {'t': 'float', 'v': v}
+    B = lambda v: {'t': 'bool', 'v': v}
+    L_ = lambda *v: {'t': 'list', 'v': list(v)}
+    D = lambda *kv: {'t': 'dict', 'v': [list(x) for x in kv]}
+    pairs = [(I(1), B(True)), (B(True), I(1)), (I(1), F('1.0')), (F('1.0'), I(1)), (F('0.0'), F('-0.0')), (F('-0.0'), F('0.0')), (I(0), B(False)), (B(False), F('0.0')),
+             (L_(I(1), I(2)), L_(F('1.0'), F('2.0'))), (L_(B(True)), L_(I(1))), (D(('on', I(1))), D(('on', B(True)))), (D(('x', L_(I(0)))), D(('x', L_(B(False))))),
+             (L_(I(1), I(2)), {'t': 'tuple', 'v': [I(1), I(2)]}), (I(2 ** 53), F('9007199254740992.0'))]
+    for kind in ('Array', 'Ragged'):
+        for old, new in pairs:
+            for form in ('set', 'dict', 'kwargs', 'pairs'):
+                for other in (False, True):
+                    given = [['k', old]] + ([['z', I(5)]] if other else [])
+                    items = [['k', new]] + ([['z', I(5)]] if other and form != 'set' else [])
+                    op = {'o': 'set', 'k': 'k', 'v': new} if form == 'set' else {'o': 'update', 'form': form, 'items': items}
+                    yield {'kind': kind, 'start': 'given', 'given': given, 'ops': [op, {'o': 'reopen'}, op]}
+                    yield {'kind': kind, 'start': 'none', 'ops': [{'o': 'set', 'k': 'k', 'v': old}, op]}
+
+
+def task_equalvalues(ctx, col):
+    enum_search(ctx, col, equal_values_specs(), lambda s: execute(ctx, s))
+
+
 def tasks(ctx):
     global EXHAUSTIVE
     L = ctx.pick(3, 4)
     EXHAUSTIVE = f"all op sequences of length <= {L} over the 9-op alphabet from 3 start configurations"
-    t = [(task_locale, dict(n=ctx.pick(80, 1000)))]
+    t = [(task_locale, dict(n=ctx.pick(80, 1000))), (task_equalvalues, {})]
     for sh in range(NSHARDS):
         t.append((task_enum, dict(shard=sh, L=L)))
         t.append((task_random, dict(shard=sh, n=ctx.pick(150, 2000), max_ops=ctx.pick(20, 50))))
